@@ -197,7 +197,11 @@ func evalBoolPaths(paths []*DPath, asg map[string]*big.Int) (bool, error) {
 	return res, nil
 }
 
-func ruleTTmplScripts(c *Ctx) {
+func ruleTTmplScripts(c *Ctx) { ruleTTmplOnly(c, nil) }
+
+// ruleTTmplOnly restricts the template rules to the predicates a property depends on (nil = all), so
+// that a change to one predicate is reported by the properties it affects and by no other.
+func ruleTTmplOnly(c *Ctx, only map[string]bool) {
 	type tm struct {
 		name string
 		spec func(m map[string]int64) bool
@@ -213,6 +217,9 @@ func ruleTTmplScripts(c *Ctx) {
 			return (m["len"] > 0 && m["b0"] == 0x6a) || (m["len"] > 1 && m["b0"] == 0 && m["b1"] == 0x6a)
 		}},
 	} {
+		if only != nil && !only[t.name] {
+			continue
+		}
 		fn := c.P.Func("bscript", "*Script", t.name)
 		if fn == nil {
 			c.Undecided("T-tmpl", t.name, token.NoPos, "not found")
@@ -224,6 +231,9 @@ func ruleTTmplScripts(c *Ctx) {
 	// return false on the err != nil branch of DecodeParts
 	pe := pEngine(c)
 	for _, name := range []string{"IsP2PK", "IsMultiSigOut", "IsP2PKHInscription"} {
+		if only != nil && !only[name] {
+			continue
+		}
 		fn := c.P.Func("bscript", "*Script", name)
 		if fn == nil {
 			c.Undecided("T-tmpl", name+"/undecodable", token.NoPos, "not found")
